@@ -11,7 +11,7 @@ use std::sync::atomic::{AtomicBool, AtomicU64, Ordering};
 use std::sync::{Arc, Barrier, mpsc};
 use std::time::{Duration, Instant};
 
-pub const RULE: &str = "generated real-thread schedules: one waiter (wait_for_credit or wait_for_reconnect, far-future deadline) against 1..3 signaller threads running generated op lists over {ack, send, cancel, advance, resume} with generated start order (parked-first: signals start >=1.5 ms after the waiter's start stamp; racing: barrier start) and inter-op spins; oracle is schedule-independent: if the final state satisfies the waiter's predicate the waiter must have returned within the watchdog, otherwise the harness cancels and the waiter must return Cancelled; result kinds limited to what the issued operations make possible; deadline cases must time out no earlier than the deadline; (resume-frees-credit) a producer parked on a full, unacknowledged window returns with credit when the receiver resumes at any chunk boundary up to everything sent; (deadline-rearm) with another thread issuing non-satisfying wake-ups for 90% of the deadline the waiter still times out within 1.55x the deadline (confirmed twice); non-trivial = the waiter was parked (start stamp + 1 ms earlier than the first signal); distinct = case hash";
+pub const RULE: &str = "generated real-thread schedules: one waiter (wait_for_credit or wait_for_reconnect, far-future deadline) against 1..3 signaller threads running generated op lists over {ack, send, cancel, advance, resume} with generated start order (parked-first: signals start >=1.5 ms after the waiter's start stamp; racing: barrier start) and inter-op spins; oracle is schedule-independent: if the final state satisfies the waiter's predicate the waiter must have returned within the watchdog, otherwise the harness cancels and the waiter must return Cancelled; result kinds limited to what the issued operations make possible; deadline cases must time out no earlier than the deadline; (entry-race) one satisfying signal issued at a swept sub-microsecond delay around the entry of the waiter, thousands of rounds per (waiter, signal) pair: the waiter always returns; (resume-frees-credit) a producer parked on a full, unacknowledged window returns with credit when the receiver resumes at any chunk boundary up to everything sent; (deadline-rearm) with another thread issuing non-satisfying wake-ups for 90% of the deadline the waiter still times out within 1.55x the deadline (confirmed twice); non-trivial = the waiter was parked (start stamp + 1 ms earlier than the first signal); distinct = case hash";
 
 #[derive(Debug, Clone, Copy, Serialize, Deserialize, Hash, PartialEq, Eq)]
 pub enum Waiter {
@@ -476,6 +476,129 @@ pub fn check_rearm(c: &Rearm) -> CheckResult {
     Ok(CaseInfo::new(true).class(if c.reconnect { "reconnect-waiter" } else { "credit-waiter" }))
 }
 
+// ------------------------------------------------ signals racing the waiter's entry
+
+/// The sub-microsecond window between a waiter's last look at the state and the moment
+/// it parks: one satisfying signal is issued at a swept delay (0..400 spins on either side) around the
+/// waiter's entry, thousands of times; the waiter must return (never sleep on to its
+/// deadline). Which signal and which waiter are the case.
+#[derive(Debug, Clone, Copy, Serialize, Deserialize, Hash, PartialEq, Eq)]
+pub enum RaceSignal {
+    Cancel,
+    Ack,
+    Advance,
+    Resume,
+}
+
+#[derive(Debug, Clone, Serialize, Deserialize, Hash, PartialEq, Eq)]
+pub struct EntryRace {
+    pub reconnect: bool,
+    pub signal: RaceSignal,
+    pub rounds: u32,
+}
+
+pub fn check_entry_race(c: &EntryRace) -> CheckResult {
+    use std::sync::atomic::AtomicUsize;
+    fn rendezvous(gate: &AtomicUsize, parties: usize) {
+        gate.fetch_add(1, Ordering::SeqCst);
+        while gate.load(Ordering::SeqCst) < parties {
+            std::hint::spin_loop();
+        }
+    }
+    let limit = watchdog();
+    let mut x: u64 = 0x9E37_79B9_7F4A_7C15 ^ (c.rounds as u64) ^ ((c.reconnect as u64) << 7) ^ ((c.signal as u64) << 9);
+    let mut next = move || {
+        x ^= x << 13;
+        x ^= x >> 7;
+        x ^= x << 17;
+        x
+    };
+    let mut contended = 0u32;
+    for round in 0..c.rounds {
+        let r = next();
+        // both sides leave a spin rendezvous together and then burn 0..400 spins (a few
+        // nanoseconds each): the window is far below a microsecond. Three rounds in four a
+        // third thread hammers the same lock, which widens it.
+        let signal_spins = (r % 400) as u32;
+        let waiter_spins = ((r >> 16) % 400) as u32;
+        let with_reader = (r >> 40) % 4 != 0;
+        let parties = if with_reader { 3 } else { 2 };
+        let tc = Arc::new(TransferControl::with_replay_capacity(100, 1 << 20));
+        tc.push_replay(0, 100, false, vec![7u8; 100]);
+        tc.record_sent(100);
+        let gate = Arc::new(AtomicUsize::new(0));
+        let done = Arc::new(AtomicBool::new(false));
+        let reader = with_reader.then(|| {
+            let (tc, g, d) = (tc.clone(), gate.clone(), done.clone());
+            std::thread::spawn(move || {
+                rendezvous(&g, parties);
+                while !d.load(Ordering::Relaxed) {
+                    std::hint::black_box(tc.offsets());
+                }
+            })
+        });
+        if with_reader {
+            contended += 1;
+        }
+        let (tc2, g2, reconnect) = (tc.clone(), gate.clone(), c.reconnect);
+        let waiter = std::thread::spawn(move || {
+            rendezvous(&g2, parties);
+            for _ in 0..waiter_spins {
+                std::hint::spin_loop();
+            }
+            let t0 = Instant::now();
+            if reconnect {
+                !matches!(tc2.wait_for_reconnect(Duration::from_secs(20)), ReconnectOutcome::Timeout)
+            } else {
+                !matches!(tc2.wait_for_credit(50, t0 + Duration::from_secs(20)), Err(CreditError::Timeout))
+            }
+        });
+        rendezvous(&gate, parties);
+        for _ in 0..signal_spins {
+            std::hint::spin_loop();
+        }
+        match c.signal {
+            RaceSignal::Cancel => tc.cancel("race"),
+            RaceSignal::Ack => {
+                tc.record_ack(0, 100);
+            }
+            RaceSignal::Advance => tc.advance_to_file(1),
+            RaceSignal::Resume => {
+                let _ = tc.request_resume(peer(3), 0, 100);
+            }
+        }
+        // the waiter must come back on its own; if it does not, release it and report
+        let t0 = Instant::now();
+        while !waiter.is_finished() && t0.elapsed() < limit {
+            std::thread::sleep(Duration::from_micros(20));
+        }
+        let hung = !waiter.is_finished();
+        if hung {
+            tc.cancel("harness release");
+            tc.record_ack(0, 100);
+        }
+        let ok = waiter.join().map_err(|_| Fail::new("panic", "waiter panicked"))?;
+        done.store(true, Ordering::Relaxed);
+        if let Some(r) = reader {
+            let _ = r.join();
+        }
+        if hung {
+            return Err(Fail::new(
+                "lost-wakeup",
+                format!(
+                    "round {round}: {} was still parked {limit:?} after {:?} was issued {signal_spins} spins after the common start (waiter entered after {waiter_spins} spins, lock contended: {with_reader}): the signal raced the waiter's entry",
+                    if c.reconnect { "wait_for_reconnect" } else { "wait_for_credit" },
+                    c.signal
+                ),
+            ));
+        }
+        ensure!(ok, "timeout-too-early", "round {round}: the waiter reported a timeout under a 20 s deadline");
+    }
+    Ok(CaseInfo::new(true)
+        .class(format!("{}+{:?}", if c.reconnect { "reconnect" } else { "credit" }, c.signal))
+        .class(format!("rounds-with-lock-contention={}%", contended * 100 / c.rounds.max(1) / 10 * 10)))
+}
+
 // --------------------------------------------- a resume that confirms in-flight bytes
 
 /// A producer parked for credit on a full window (everything sent, nothing
@@ -528,6 +651,20 @@ pub fn run(ctx: &Ctx, rep: &Report) {
         .flat_map(|(chunks, chunk)| (1..=chunks).map(move |k| ResumeFrees { chunks, chunk, k }))
         .collect();
     run_enum(ctx, rep, "resume-frees-credit", &rf, true, &check_resume_frees);
+    // (satisfying signal for each waiter: cancel for both; ack / advance for credit; resume for both)
+    let rounds = ctx.tier.pick(4_000, 100_000);
+    let races: Vec<EntryRace> = [
+        (true, RaceSignal::Cancel),
+        (true, RaceSignal::Resume),
+        (false, RaceSignal::Cancel),
+        (false, RaceSignal::Ack),
+        (false, RaceSignal::Advance),
+        (false, RaceSignal::Resume),
+    ]
+    .into_iter()
+    .map(|(reconnect, signal)| EntryRace { reconnect, signal, rounds })
+    .collect();
+    run_enum(ctx, rep, "entry-race", &races, false, &check_entry_race);
     let rearm: Vec<Rearm> = [false, true]
         .into_iter()
         .flat_map(|reconnect| [(1200u16, 300u16), (1500, 5000), (2000, 40_000)].into_iter().map(move |(timeout_ms, period_us)| Rearm { reconnect, timeout_ms, period_us }))
@@ -541,6 +678,7 @@ pub fn replay(sub: &str, case: &Value) -> Result<(), Fail> {
     match sub {
         "schedules" | "deadlines" => replay_case::<Sched>(case, &check),
         "deadline-rearm" => replay_case::<Rearm>(case, &check_rearm),
+        "entry-race" => replay_case::<EntryRace>(case, &check_entry_race),
         "resume-frees-credit" => replay_case::<ResumeFrees>(case, &check_resume_frees),
         _ => Err(Fail::new("replay-unknown-sub", sub.to_string())),
     }
